@@ -64,8 +64,7 @@ fn zr_usk_read_layout() {
     kani::cover!(k1 != k2, "two different revisions");
     assert!(de.value().is_empty(), "bytes left over after reading the key");
     assert!(back.signature.is_none(), "a signature appeared");
-    let mut it = back.id.iter();
-    assert!(*it.next().unwrap() == ToyScalar::new(a0) && *it.next().unwrap() == ToyScalar::new(a1) && it.next().is_none(), "id markers changed / reordered");
+    assert!(back.id.0.len() == 2 && *back.id.0.front().unwrap() == ToyScalar::new(a0) && *back.id.0.back().unwrap() == ToyScalar::new(a1), "id markers changed / reordered");
     assert!(back.ps.len() == 2 && back.ps[0] == ToyPoint(p0) && back.ps[1] == ToyPoint(p1), "tracing points changed / reordered");
     assert!(back.secrets.len() == 1);
     let (r, c) = back.secrets.iter().next().unwrap();
